@@ -85,7 +85,12 @@ func report(witness func(f finding) any, attempt func() ([]finding, caseStats)) 
 		}
 		fs, st = fs2, st2
 	}
+	seen := map[string]bool{}
 	for _, f := range fs {
+		if seen[f.Key] {
+			continue // one report per key and case
+		}
+		seen[f.Key] = true
 		if strings.HasPrefix(f.Key, "harness/") {
 			run.Fatal("%s: %s", f.Key, f.What)
 		}
@@ -155,7 +160,7 @@ func main() {
 	}
 	workers := make([]*worker, nW)
 	for i := range workers {
-		w, err := newWorker(listenIP, 0)
+		w, err := newWorker(listenIP, 0, false)
 		if err != nil {
 			run.Fatal("server: %v", err)
 		}
@@ -168,7 +173,7 @@ func main() {
 	kwg.Add(1)
 	go func() { // keep-alive cases mostly sleep: they run beside the main batch
 		defer kwg.Done()
-		kw, err := newWorker(listenIP, 6*time.Second)
+		kw, err := newWorker(listenIP, 6*time.Second, false)
 		if err != nil {
 			run.Fatal("server: %v", err)
 		}
@@ -179,6 +184,34 @@ func main() {
 			c.Mode = "play"
 			setOrders(&c, r)
 			e2eCase(kw, c, r, true)
+		})
+	}()
+	kwg.Add(1)
+	go func() { // URLs without a port need the one server that owns port 554
+		defer kwg.Done()
+		pw, err := newWorker(listenIP, 0, true)
+		if err != nil {
+			run.Count("authority-without-port:skipped(port 554 not available)", 1)
+			run.Assume("port 554 could not be bound in this run: authorities without a port not exercised (" + vlib.Trunc(err.Error(), 80) + ")")
+			return
+		}
+		defer pw.close()
+		var np []string
+		for _, a := range auths {
+			np = append(np, a+"-noport")
+		}
+		pool(1, run.Pick(120, 1500), func(_, i int) {
+			r := run.Rand("noport", i)
+			c := genCase(r, np)
+			for _, m := range []string{"play", "record"} {
+				cc := c
+				cc.Mode = m
+				cc.Proto = []string{"udp", "tcp"}[r.Intn(2)]
+				setOrders(&cc, r)
+				e2eCase(pw, cc, r, false)
+			}
+			run.Count("urls-with:authority-without-port", 1)
+			run.Distinct(strings.Join(c.features(), "|") + "|noport")
 		})
 	}()
 	featureCount := map[string]int64{}
@@ -269,6 +302,7 @@ func finish() {
 	run.Assume("handler Path = percent-decoded URL path with its leading slash (the convention of the repository's own server tests: \"/teststream\"), Query = raw query string")
 	run.Assume("paths whose decoded form ends in '/' (e.g. a trailing %2F) and queries ending in '/' are outside the property and not generated; path segments are non-empty")
 	run.Assume("relative control attributes: the append-to-base rule (library documentation and tests, FFmpeg, live555) is the expectation; where strict RFC 1808 resolution gives another URL, that URL is accepted too; leading '?' / leading '/' controls are generated only for bases without a query; a session-level absolute a=control is generated only without a competing Content-Base")
+	run.Assume("for URLs without a query the server's Content-Base + 'trackID=n' must denote the same URL under strict RFC 1808 resolution as under the library client's append rule")
 	run.Assume("UDP: a set-up media counts as unreached only if none of up to 400 packets arrives, in two independent attempts")
 	if run.Get("handler-observations-compared") == 0 || run.Get("setup-to-media-attributions-checked") == 0 || run.Get("request-lines-scanned") == 0 {
 		run.Fatal("a monitor observed nothing")
@@ -297,7 +331,7 @@ func replay(listenIP string) {
 		if w.Keepalive {
 			idle = 6 * time.Second
 		}
-		wk, err := newWorker(listenIP, idle)
+		wk, err := newWorker(listenIP, idle, strings.HasSuffix(w.Case.Auth, "-noport"))
 		if err != nil {
 			run.Fatal("server: %v", err)
 		}
@@ -310,7 +344,7 @@ func replay(listenIP string) {
 		if err := run.LoadReplay(&ic); err != nil {
 			run.Fatal("replay: %v", err)
 		}
-		wk, err := newWorker(listenIP, 0)
+		wk, err := newWorker(listenIP, 0, false)
 		if err != nil {
 			run.Fatal("server: %v", err)
 		}
